@@ -320,7 +320,9 @@ type formatVerb struct {
 // formatting sequence that is encountered.
 func formatAppend(verb *formatVerb, buf *bytes.Buffer, args []cty.Value) error {
 	argIdx := verb.ArgNum - 1
-	if argIdx >= len(args) {
+	if argIdx < 0 || argIdx >= len(args) {
+		// (argIdx can be negative only if an explicit [n] index was too large
+		// for an int and so wrapped around.)
 		return fmt.Errorf(
 			"not enough arguments for %q at %d: need index %d but have %d total",
 			verb.Raw, verb.Offset,
